@@ -158,9 +158,10 @@ const (
 	kNever                    // no answer
 	kUnknownOnly              // an answer carrying an id nobody asked with, no real answer
 	kLate                     // answer after the deadline has passed
+	kEdge                     // answer written at the call's own deadline + edgeUS microseconds (see edge_auth_test.go)
 )
 
-var kindNames = [...]string{"now", "delay", "reorder", "twice", "never", "unknown-id", "late"}
+var kindNames = [...]string{"now", "delay", "reorder", "twice", "never", "unknown-id", "late", "deadline-edge"}
 
 type noiseKind int
 
@@ -184,6 +185,9 @@ type callScript struct {
 	size  int // filler bytes after the 12-byte header
 	pre   int // caller perturbation before the call: 0 none, 1 Gosched, 2 sleep preUS
 	preUS int
+	// kEdge: the answer is written edgeUS microseconds after the moment the call's deadline expires
+	// (negative: before); with scenario.adaptive only the caller's first edge call uses the scripted value
+	edgeUS int
 }
 
 type closeFault struct {
@@ -204,6 +208,15 @@ type scenario struct {
 	idleRST   bool
 	redial    []adnlsrv.DialPlan // fate of the first redials after the initial connections
 	storm     bool               // many callers that keep sending (mostly unanswered) queries around a burst + RST
+	// auth: the client is created with an authentication key and the server serves queries only on
+	// connections that completed the tcp.authentificate exchange (server nonce of nonceSize bytes)
+	auth      bool
+	nonceSize int
+	// edge: the callers' answers are written at about the moment their deadline expires (kEdge);
+	// adaptive: all callers (otherwise every second one) move their offset towards the point where answer
+	// and deadline coincide inside the client
+	edge     bool
+	adaptive bool
 }
 
 func (sc *scenario) hasFault() bool { return len(sc.closes) > 0 || sc.idleClose != 0 }
@@ -230,6 +243,12 @@ func (sc *scenario) String() string {
 	var sb strings.Builder
 	if sc.storm {
 		sb.WriteString("storm ")
+	}
+	if sc.edge {
+		fmt.Fprintf(&sb, "deadline-edge (all callers adaptive=%v) ", sc.adaptive)
+	}
+	if sc.auth {
+		fmt.Fprintf(&sb, "authenticated (server nonce %d bytes) ", sc.nonceSize)
 	}
 	fmt.Fprintf(&sb, "scenario %d: key seed %#x, %d connection(s), timeout %v, %d callers x %d calls; answers:", sc.id, sc.keySeed, sc.workers, sc.timeout, len(sc.calls), len(sc.calls[0]))
 	kc := sc.kindCounts()
@@ -404,6 +423,7 @@ func drawScenario(c *core.Ctx, id int, withFault bool) *scenario {
 			sc.redial = append(sc.redial, p)
 		}
 	}
+	drawAuth(c, sc, 4)
 	return sc
 }
 
@@ -439,7 +459,10 @@ type srvState struct {
 	extra    map[string]callScript       // scripts of calls the harness issues after phase A, by payload header
 	faultAt  []time.Time                 // moments the script disturbed a connection or a dial
 	unknown  int
-	pending  atomic.Int64 // timers not yet fired
+	auths    map[*adnlsrv.Conn]*authState // sc.auth: state of the authentication exchange per connection
+	authPub  ed25519.PublicKey            // sc.auth: the key the client must prove
+	edge     []edgeSlot                   // per caller: start and offset of its current kEdge call
+	pending  atomic.Int64                 // timers not yet fired
 	answered atomic.Int64
 }
 
@@ -473,6 +496,11 @@ func (st *srvState) fabricatedID() [32]byte {
 }
 
 func (st *srvState) noisePacket(k noiseKind, body []byte) []byte {
+	if st.sc.auth && k == nAuthNonce {
+		// an authenticating client is waiting for exactly one nonce per connection; a second, unsolicited
+		// one is a different protocol conversation from the one this property is about
+		k = nPong
+	}
 	switch k {
 	case nPong:
 		return adnlsrv.Pong(binary.LittleEndian.Uint64(st.fabricatedIDBytes()))
@@ -598,6 +626,8 @@ func (st *srvState) onQuery(cn *adnlsrv.Conn, id [32]byte, body []byte) {
 		st.answer(cn, rec, id, body, 1)
 	case kDelay, kLate:
 		st.later(q.delay, func() { st.answer(cn, rec, id, body, 1) })
+	case kEdge:
+		st.later(time.Until(st.edgeTime(caller)), func() { st.answer(cn, rec, id, body, 1) })
 	case kReorder:
 		h := &heldAnswer{remaining: q.after, fire: func() { st.answer(cn, rec, id, body, 1) }}
 		st.mu.Lock()
@@ -634,8 +664,12 @@ func (st *srvState) onQuery(cn *adnlsrv.Conn, id [32]byte, body []byte) {
 
 func startServer(sc *scenario) (*srvState, error) {
 	st := &srvState{sc: sc, records: map[string]*qRecord{}, held: map[*adnlsrv.Conn][]*heldAnswer{}, ended: map[*adnlsrv.Conn]time.Time{},
-		scripted: map[*adnlsrv.Conn]bool{}, extra: map[string]callScript{},
+		scripted: map[*adnlsrv.Conn]bool{}, extra: map[string]callScript{}, auths: map[*adnlsrv.Conn]*authState{},
+		edge:   make([]edgeSlot, len(sc.calls)),
 		closes: append([]closeFault{}, sc.closes...), redial: append([]adnlsrv.DialPlan{}, sc.redial...)}
+	if sc.auth {
+		st.authPub = sc.authKey().Public().(ed25519.PublicKey)
+	}
 	b := make([]byte, ed25519.SeedSize)
 	core.NewSplitMix(sc.keySeed).Fill(b)
 	srv, err := adnlsrv.Listen(ed25519.NewKeyFromSeed(b), adnlsrv.Hooks{
@@ -652,7 +686,14 @@ func startServer(sc *scenario) (*srvState, error) {
 		},
 		Serve: func(cn *adnlsrv.Conn) {
 			cn.Loop(func(f adnlsrv.Frame) bool {
+				if sc.auth && st.onAuthFrame(cn, f.Payload) {
+					return true
+				}
 				if id, body, ok := adnlsrv.ParseQuery(f.Payload); ok {
+					if sc.auth && !st.authenticated(cn) {
+						cn.Note("query on a connection that has not completed the authentication: ignored")
+						return true
+					}
 					st.onQuery(cn, id, body)
 				}
 				return true
@@ -675,6 +716,7 @@ type callRecord struct {
 	start, end   time.Time
 	resp         []byte
 	err          error
+	edgeUS       int // kEdge: the offset that was used
 }
 
 type outcome struct {
@@ -766,7 +808,7 @@ func (o *outcome) freshCall() ([]byte, []byte, error) {
 func (st *srvState) liveConns() []*adnlsrv.Conn {
 	var out []*adnlsrv.Conn
 	for _, cn := range st.srv.Conns() {
-		if closed, _ := cn.Closed(); !closed {
+		if closed, _ := cn.Closed(); !closed && (!st.sc.auth || st.authenticated(cn)) {
 			out = append(out, cn)
 		}
 	}
@@ -988,7 +1030,12 @@ func runScenario(sc *scenario) *outcome {
 	}
 	o.st = st
 	ctx, cancel := context.WithTimeout(context.Background(), 30*time.Second)
-	conn, err := liteclient.NewConnection(ctx, []byte(st.srv.PublicKey()), st.srv.Addr())
+	var conn *liteclient.Connection
+	if sc.auth {
+		conn, err = liteclient.NewConnection(ctx, []byte(st.srv.PublicKey()), st.srv.Addr(), sc.authKey())
+	} else {
+		conn, err = liteclient.NewConnection(ctx, []byte(st.srv.PublicKey()), st.srv.Addr())
+	}
 	cancel()
 	if err != nil {
 		o.violation = fmt.Sprintf("NewConnection against a conforming server: %v", err)
@@ -1032,6 +1079,7 @@ func runScenario(sc *scenario) *outcome {
 		go func(ci int, script []callScript, recs []callRecord) {
 			defer wg.Done()
 			<-start
+			var ec edgeCaller
 			for k, q := range script {
 				switch q.pre {
 				case 1:
@@ -1042,7 +1090,12 @@ func runScenario(sc *scenario) *outcome {
 				r := &recs[k]
 				r.caller, r.call = ci, k
 				r.payload = queryPayload(sc.id, ci, k, q.size)
+				if q.kind == kEdge {
+					r.edgeUS = ec.next(sc, ci, q)
+					st.edge[ci].off.Store(int64(r.edgeUS))
+				}
 				r.start = time.Now()
+				st.edge[ci].start.Store(int64(r.start.Sub(baseT)))
 				// every second caller brings a context with a deadline of its own, far later than the client's
 				// per-request timeout: the call is still bounded by the client timeout
 				ctx, cancel := context.Background(), context.CancelFunc(func() {})
@@ -1052,6 +1105,9 @@ func runScenario(sc *scenario) *outcome {
 				r.resp, r.err = o.cl.Request(ctx, r.payload)
 				cancel()
 				r.end = time.Now()
+				if q.kind == kEdge {
+					ec.done(r.err == nil)
+				}
 			}
 		}(ci, script, o.calls[idx:idx+len(script)])
 		idx += len(script)
@@ -1117,6 +1173,9 @@ func (o *outcome) judge(c *core.Ctx) string {
 		desc := func() string {
 			s := fmt.Sprintf("caller %d call %d (script %s, %d payload bytes, started %v, returned after %v)", r.caller, r.call, kindNames[q.kind], len(r.payload),
 				r.start.Format("15:04:05.000"), r.end.Sub(r.start).Round(time.Microsecond))
+			if q.kind == kEdge {
+				s += fmt.Sprintf("; answer scheduled %d us after the deadline", r.edgeUS)
+			}
 			if rec == nil {
 				return s + "; the server never received this query"
 			}
@@ -1253,11 +1312,21 @@ var batchCheck = &core.Check{Name: "c12/batch", Quick: 6, Thorough: 190, Fn: fun
 	for i := range scs {
 		withFault := faultBatch && (i == 0 || c.Bool("fault"))
 		var sc *scenario
-		if core.NewSplitMix(c.U64("storm")).Intn(8) == 0 {
+		switch core.NewSplitMix(c.U64("storm")).Intn(8) {
+		case 0:
 			sc = drawStorm(c, i)
 			c.Class("storm scenario")
-		} else {
+		case 1:
+			sc = drawEdge(c, i, false)
+			c.Class("deadline-edge scenario")
+		default:
 			sc = drawScenario(c, i, withFault)
+		}
+		if sc.auth {
+			c.Class("client with an authentication key")
+			if sc.hasFault() {
+				c.Class("client with an authentication key, connection fault")
+			}
 		}
 		scs[i] = sc
 		key = append(key, sc.String())
@@ -1286,7 +1355,7 @@ var batchCheck = &core.Check{Name: "c12/batch", Quick: 6, Thorough: 190, Fn: fun
 			c.Class(">= 8 callers")
 		}
 		c.Class(fmt.Sprintf("%d connection(s)", sc.workers))
-		if len(sc.calls) >= 8 && kc[kReorder]+kc[kTwice]+kc[kNever]+kc[kUnknownOnly]+kc[kLate] > 0 || sc.hasFault() {
+		if len(sc.calls) >= 8 && kc[kReorder]+kc[kTwice]+kc[kNever]+kc[kUnknownOnly]+kc[kLate]+kc[kEdge] > 0 || sc.hasFault() {
 			nontrivial = true
 		}
 		if i < 4 {
@@ -1412,6 +1481,9 @@ var outageCheck = &core.Check{Name: "c12/long-outage", Quick: 1, Thorough: 24, F
 	// connections of the client: 12..16 refusals per connection keep each of them out for 12..16 s
 	for i, n := 0, sc.workers*c.Range("outage.redials", 12, 16); i < n; i++ {
 		sc.redial = append(sc.redial, adnlsrv.DialPlan{Kind: adnlsrv.DialReset})
+	}
+	if drawAuth(c, sc, 2); sc.auth {
+		c.Class("client with an authentication key")
 	}
 	c.Note("scenario", sc.String())
 	c.NonTrivial(sc.String())
@@ -1561,6 +1633,9 @@ var dropSeqCheck = &core.Check{Name: "c12/drop-sequence", Quick: 1, Thorough: 16
 		text = append(text, t)
 		c.Class("step: idle close after a recovery")
 	}
+	if drawAuth(c, sc, 2); sc.auth {
+		c.Class("client with an authentication key")
+	}
 	script := sc.String() + "; then " + strings.Join(text, "; then ")
 	c.Note("scenario", script)
 	c.NonTrivial(script)
@@ -1636,6 +1711,8 @@ func TestProp(t *testing.T) {
 	t.Run("long-outage", func(t *testing.T) { core.Run(t, outageCheck) })
 	t.Run("long-poll", func(t *testing.T) { core.Run(t, longPollCheck) })
 	t.Run("drop-sequence", func(t *testing.T) { core.Run(t, dropSeqCheck) })
+	t.Run("at-deadline", func(t *testing.T) { core.Run(t, edgeCheck) })
+	t.Run("auth-reconnect", func(t *testing.T) { core.Run(t, authCheck) })
 	t.Run("batch", func(t *testing.T) {
 		core.Run(t, batchCheck)
 		core.Extra(batchCheck.Name, "scenarios", totalScenarios.Load())
@@ -1644,4 +1721,6 @@ func TestProp(t *testing.T) {
 	})
 }
 
-func TestReplay(t *testing.T) { core.Replay(t, batchCheck, outageCheck, longPollCheck, dropSeqCheck) }
+func TestReplay(t *testing.T) {
+	core.Replay(t, batchCheck, outageCheck, longPollCheck, dropSeqCheck, edgeCheck, authCheck)
+}
